@@ -54,6 +54,8 @@ pub struct ClientSim {
     pub pending_emits: Vec<(String, u32, Option<String>)>,
     /// pre-spawned entities already used in a mapping (one mapping each)
     pub used_pre: std::collections::BTreeSet<String>,
+    /// MutateTickReceived notifications observed in the client's last frame
+    pub last_notif: Vec<u32>,
 }
 
 #[derive(Default, Clone)]
@@ -188,6 +190,7 @@ impl Sim {
                 panicked: false,
                 pending_emits: Vec::new(),
                 used_pre: Default::default(),
+                last_notif: Vec::new(),
             });
         }
         let mut slots = BTreeMap::new();
@@ -670,6 +673,13 @@ impl Sim {
             }
         }
         self.collect_client_log(ci);
+        let notif: Vec<u32> = self.clients[ci]
+            .app
+            .world_mut()
+            .get_resource_mut::<TickLog>()
+            .map(|mut l| l.0.drain(..).collect())
+            .unwrap_or_default();
+        self.clients[ci].last_notif = notif;
     }
 
     // ------------------------------------------------------------------ events
@@ -1080,6 +1090,7 @@ impl Sim {
             pre.insert(n.clone(), json!(w.get_entity(pe).is_ok()));
         }
         json!({
+            "notif": c.last_notif,
             "pre": pre,
             "status": status,
             "updTick": w.resource::<ServerUpdateTick>().get(),
